@@ -143,6 +143,40 @@ func run(c *h.Ctx, cs Case) {
 				}
 			}
 		}
+		// among many: an or / and of several like statements over the SAME selector (an allow-list), the statement at
+		// every position, next to decoy patterns of every first character class (letter, wildcard, escape, empty)
+		decoys := []string{"zz-never", "q*-never", `\z\z-never`, "", `\*never`, "*-never-*", "é-never", `\\never`}
+		for _, nOps := range []int{2, 4, 5, 8} {
+			for pos := 0; pos < nOps; pos += 1 + nOps/3 {
+				var sub []pol.Stmt
+				anyDecoy, allDecoy := false, true
+				for i := 0; i < nOps; i++ {
+					if i == pos {
+						sub = append(sub, likeS)
+						continue
+					}
+					dp := decoys[(i+nOps)%len(decoys)]
+					dm, _ := pol.Glob(dp, cs.Str)
+					anyDecoy, allDecoy = anyDecoy || dm, allDecoy && dm
+					sub = append(sub, pol.Stmt{Op: "like", Sel: sel.Sel{{Kind: "id"}}, Pat: dp})
+				}
+				for _, conn := range []string{"or", "and"} {
+					wantC := want || anyDecoy
+					if conn == "and" {
+						wantC = want && allDecoy
+					}
+					for _, viaIPLD := range []bool{false, true} {
+						p, err := pol.Policy{{Op: conn, Sub: sub}}.Build(viaIPLD)
+						if err != nil {
+							continue
+						}
+						if m, _ := p.Match(sv.Node()); m != wantC {
+							c.Fail("C13/glob/wrapped/"+conn+"-of-many", "like %q on %q as operand %d of an %s of %d like statements over the same selector: the %s evaluates to %v, the glob language says %v (on its own the like gives %v)", cs.Pat, cs.Str, pos, conn, nOps, conn, m, wantC, got)
+						}
+					}
+				}
+			}
+		}
 		c.P.Class("wrapped")
 	}
 	if nontrivial(cs.Pat, cs.Str) {
